@@ -195,35 +195,8 @@ func runC05(c *core.Ctx) {
 		c.Undecided("linking/cid.LinkSystemUsingMulticodecRegistry", "-", "not found")
 	}
 
-	c.Rule("C05.freshhasher", "the registry HasherChooser returns, on every success return, a hasher obtained from GetHasher in that very activation (never an instance kept in a captured variable, map or global): each operation hashes into its own state", 1)
-	if fn := p.Func("linking/cid", "", "LinkSystemUsingMulticodecRegistry"); fn != nil {
-		for _, cl := range fn.AnonFuncs {
-			res := cl.Signature.Results()
-			if res.Len() != 2 {
-				continue
-			}
-			nt := namedOfType(res.At(0).Type())
-			if nt == nil || nt.Obj().Name() != "Hash" || nt.Obj().Pkg().Path() != "hash" {
-				continue
-			}
-			for _, ret := range core.Returns(cl) {
-				if core.ResultNilness(ret, 1) == core.NonNil {
-					continue
-				}
-				for _, v := range core.ResultValues(ret, 0) {
-					ok := false
-					if e, isE := core.Strip(v).(*ssa.Extract); isE && e.Index == 0 {
-						if cv, isC := e.Tuple.(*ssa.Call); isC {
-							if o := core.CalleeObj(cv); o != nil && o.Name() == "GetHasher" {
-								ok = true
-							}
-						}
-					}
-					c.Check(ok, core.FuncKey(cl)+"#fresh-hasher", p.Pos(ret.Pos()), "returns the hasher GetHasher produced in this activation", "the chooser returns a hasher that was not obtained from GetHasher in this activation (a cached/shared instance): overlapping operations of the same multihash type corrupt each other's digests")
-				}
-			}
-		}
-	}
+	c.Rule("C05.freshhasher", freshHasherText, 1)
+	checkFreshHasher(c)
 
 	c.Rule("C05.loadside", "every load function asks DecoderChooser about the requested link and HasherChooser about lnk.Prototype()", 4)
 	lsT := p.NamedType("linking", "LinkSystem")
@@ -353,4 +326,40 @@ func rootOf(a ssa.Value) ssa.Value {
 			return a
 		}
 	}
+}
+
+const freshHasherText = "the registry HasherChooser returns, on every success return, a hasher obtained from GetHasher in that very activation (never an instance kept in a captured variable, map or global): each operation hashes into its own state"
+
+// checkFreshHasher is shared by C05 (links do not depend on previous operations) and C20 (hashers are per call).
+func checkFreshHasher(c *core.Ctx) {
+	p := c.P
+	if fn := p.Func("linking/cid", "", "LinkSystemUsingMulticodecRegistry"); fn != nil {
+		for _, cl := range fn.AnonFuncs {
+			res := cl.Signature.Results()
+			if res.Len() != 2 {
+				continue
+			}
+			nt := namedOfType(res.At(0).Type())
+			if nt == nil || nt.Obj().Name() != "Hash" || nt.Obj().Pkg().Path() != "hash" {
+				continue
+			}
+			for _, ret := range core.Returns(cl) {
+				if core.ResultNilness(ret, 1) == core.NonNil {
+					continue
+				}
+				for _, v := range core.ResultValues(ret, 0) {
+					ok := false
+					if e, isE := core.Strip(v).(*ssa.Extract); isE && e.Index == 0 {
+						if cv, isC := e.Tuple.(*ssa.Call); isC {
+							if o := core.CalleeObj(cv); o != nil && o.Name() == "GetHasher" {
+								ok = true
+							}
+						}
+					}
+					c.Check(ok, core.FuncKey(cl)+"#fresh-hasher", p.Pos(ret.Pos()), "returns the hasher GetHasher produced in this activation", "the chooser returns a hasher that was not obtained from GetHasher in this activation (a cached/shared instance): overlapping operations of the same multihash type corrupt each other's digests")
+				}
+			}
+		}
+	}
+
 }
